@@ -449,6 +449,65 @@ pub fn check(tier: &str) -> i32 {
         evals += n_remember;
     }
 
+    // (b3) clause order: the clauses after the event type are a set - every ordering of every subset that
+    // parses must parse to the same command as the documented order (which must parse)
+    let mut n_perm = 0u64;
+    let max_k_perm = if tier == "quick" { 5 } else { 8 };
+    {
+        let pools: [[&str; 8]; 2] = [
+            ["FOR c0", "SINCE \"2025-01-01T00:00:00Z\"", "USING d", "RETURN [k, s]", "WHERE k = 1", "ORDER BY k DESC", "LIMIT 5", "OFFSET 2"],
+            ["FOR c0", "SINCE \"2025-01-01T00:00:00Z\"", "USING d", "WHERE k = 1", "COUNT, TOTAL k", "PER DAY", "BY s", "LIMIT 5"],
+        ];
+        let max_k = max_k_perm;
+        fn permute(items: &mut Vec<usize>, k: usize, out: &mut Vec<Vec<usize>>) {
+            if k == items.len() {
+                out.push(items.clone());
+                return;
+            }
+            for i in k..items.len() {
+                items.swap(k, i);
+                permute(items, k + 1, out);
+                items.swap(k, i);
+            }
+        }
+        for pool in &pools {
+            for mask in 1u32..256 {
+                let idx: Vec<usize> = (0..8).filter(|i| mask & (1 << i) != 0).collect();
+                if idx.len() > max_k || idx.len() < 2 {
+                    continue;
+                }
+                let canon_text = format!("QUERY a {}", idx.iter().map(|i| pool[*i]).collect::<Vec<_>>().join(" "));
+                let canon = match try_parse(&canon_text) {
+                    Outcome::Parsed(c) => c,
+                    Outcome::Panicked(m) => {
+                        viols.push(Viol { tag: classify_panic(&m), input: canon_text, what: format!("parser panicked: {m}") });
+                        continue;
+                    }
+                    Outcome::Rejected => {
+                        viols.push(Viol { tag: "roundtrip".into(), input: canon_text, what: "clauses in the documented order rejected".into() });
+                        continue;
+                    }
+                };
+                let mut perms = Vec::new();
+                permute(&mut idx.clone(), 0, &mut perms);
+                for pm in perms {
+                    let text = format!("QUERY a {}", pm.iter().map(|i| pool[*i]).collect::<Vec<_>>().join(" "));
+                    n_perm += 1;
+                    match try_parse(&text) {
+                        Outcome::Parsed(c) => {
+                            if c != canon {
+                                viols.push(Viol { tag: "clause-order".into(), input: text, what: format!("parses to another command than {canon_text:?}") });
+                            }
+                        }
+                        Outcome::Panicked(m) => viols.push(Viol { tag: classify_panic(&m), input: text, what: format!("parser panicked: {m}") }),
+                        Outcome::Rejected => {}
+                    }
+                }
+            }
+        }
+        evals += n_perm;
+    }
+
     // (c) corpus mutations
     let corp = corpus();
     let subst = ["(", ")", "\"", "99999999999", "-1", "1.5", "{", "}", "NOT", "AND", ",", "é", "LIMIT"];
@@ -626,11 +685,12 @@ pub fn check(tier: &str) -> i32 {
         coverage: json!({
             "evaluations": evals,
             "distinct_nontrivial": parsed.len(),
-            "rule": format!("(a) every string of <= {maxlen} tokens from a {}-token alphabet after each of {} command prefixes; (b) every WHERE tree with <= {max_leaves} leaves (deterministically thinned above 2) printed with minimal parentheses in 3 keyword cases and parsed back, all 256 clause subsets x 3 cases; (c) every single-token deletion, duplication and substitution of a {}-command corpus (tests/integration/scenarios.json + additions); (d) nesting depths {:?} of parentheses, NOT, unbalanced parentheses and JSON, one subprocess each with a 2 s budget; (e) every distinct parsed command (capped per command kind) dispatched against a live one-shard instance. distinct_nontrivial = distinct syntax trees the parser returned", TOKENS.len(), PREFIXES.len(), corp.len(), depths),
+            "rule": format!("(a) every string of <= {maxlen} tokens from a {}-token alphabet after each of {} command prefixes; (b) every WHERE tree with <= {max_leaves} leaves (deterministically thinned above 2) printed with minimal parentheses in 3 keyword cases and parsed back, all 256 clause subsets x 3 cases, every ordering of every clause subset of size 2..{max_k_perm} from two 8-clause pools (selection and aggregate clauses) against the documented order; (c) every single-token deletion, duplication and substitution of a {}-command corpus (tests/integration/scenarios.json + additions); (d) nesting depths {:?} of parentheses, NOT, unbalanced parentheses and JSON, one subprocess each with a 2 s budget; (e) every distinct parsed command (capped per command kind) dispatched against a live one-shard instance. distinct_nontrivial = distinct syntax trees the parser returned", TOKENS.len(), PREFIXES.len(), corp.len(), depths),
             "samples": sample_json(&parsed.values().map(|x| x.0.clone()).collect::<Vec<_>>(), 8),
             "token_strings": inputs_a.len(),
             "parsed_from_token_strings": a_parsed,
             "where_trees_roundtripped": tree_count,
+            "clause_orderings_checked": n_perm,
             "corpus_mutants": mutants.len(),
             "rejected": n_rejected,
             "nesting_inputs": nest_inputs.len(),
